@@ -10,7 +10,7 @@ Definition mtrans (s : mst) (e : mev) (j : nat) (p q : mpc) : Prop :=
   (exists o, e = MClose j /\ p = MWrote o /\ q = MRetF o) \/
   (exists r, e = MWake j /\ p = MWait /\ q = MRet r).
 
-Lemma mset_nth l a p j q : nth_error (set_nth l a p) j = Some q ->
+Lemma mset_nth (l : list mpc) a p j q : nth_error (set_nth l a p) j = Some q ->
   (j <> a /\ nth_error l j = Some q) \/ (j = a /\ q = p).
 Proof. intros H. apply mset_lookup in H as [[H1 H2]|[H1 [H2 _]]]; auto. Qed.
 
